@@ -379,7 +379,7 @@ from gpmc import callforms as _cf
 from gpmc import interp as _ip
 
 
-SUBCHECKS = [Sub('graph', gen, ev, chunk=2, floor=200, envs=4), Sub('threads', _tg, _te, chunk=1, floor=5, poison=False, fresh=True, timeout=3600), Sub('callforms', *_cf.make('C15', 'coord'), chunk=1, floor=1, guard=True), Sub('interpreter', *_ip.make('C15', 'coord'), chunk=1, floor=5, poison=False)]
+SUBCHECKS = [Sub('graph', gen, ev, chunk=2, floor=200, envs=4), Sub('threads', _tg, _te, chunk=1, floor=5, poison=False, fresh=True, timeout=7200), Sub('callforms', *_cf.make('C15', 'coord'), chunk=1, floor=1, guard=True), Sub('interpreter', *_ip.make('C15', 'coord'), chunk=1, floor=5, poison=False)]
 
 
 def bounds(tier, seed):
